@@ -84,16 +84,17 @@ def check(ctx, cases, pcases, label):
             reqs.append({"op": "parse", "src": tp2, "mode": c["mode"]})
             meta.append((idx, "parens+" + vnames[idx % len(vnames)], e0, toks))
     resps = h.run(reqs)
-    canon = {}
+    canon, canon_src = {}, {}
     for (idx, vn, e0, toks), req, resp in zip(meta, reqs, resps):
         if vn == "canon":
             canon[idx] = pytree.strip_ranges(pytree.from_rust(resp["ok"])) if "ok" in resp else None
+            canon_src[idx] = req["src"]
     for (idx, vn, e0, toks), req, resp in zip(meta, reqs, resps):
         if vn == "canon":
             continue
         ctx.replayed += 1
         ctx.distinct_cases.add(req["src"])
-        base = {"fam": "layout", "request": req, "canonical": reqs[[m[0] for m in meta].index(idx)]["src"], "variant": vn}
+        base = {"fam": "layout", "request": req, "canonical": canon_src[idx], "variant": vn}
         c0 = canon.get(idx)
         kind = sr.first_stmt_kind(e0)
         if "ok" not in resp:
